@@ -109,7 +109,7 @@ OrdCases(coins, MN, hts, mechs) ==
       c \in coins, a \in 1..4, b \in 1..Len(MN), f \in Forms, h \in hts, g \in mechs}
 NoShapes == {}
 OrdCasesQ == OrdCases({"BTC"}, MNq, {0}, {0})
-OrdCasesT == OrdCases(AllCoins, MNt, {0, 3}, {0, 1})
+OrdCasesT == OrdCases({"BTC", "BCH", "BTG", "LTC"}, MNt, {0}, {0}) \cup OrdCases({"XTN", "DOGE"}, MNq, {3}, {1})
 
 ProdShapes == {<<D(kd, 1, <<2>>, f)>> : kd \in SingleKinds, f \in Forms}
               \cup {<<D(kd, 2, <<3, 1, 2>>, f)>> : kd \in MultiKinds, f \in Forms}
@@ -128,5 +128,5 @@ LimCases(coins, mn, walks) ==
 FlagCases == {[coin |-> c, walk |-> 1, shape |-> <<D("p2pkh", 1, <<1>>, "c")>>, ht |-> 1, mech |-> "lookup"] : c \in AllCoins}
 LimCasesQ == LimCases({"BTC"}, {<<15, 15>>, <<20, 20>>, <<9, 12>>, <<7, 7>>, <<8, 15>>, <<2, 16>>}, 3)
              \cup LimCases({"BCH", "BTG"}, {<<15, 15>>, <<9, 12>>}, 2)
-LimCasesT == LimCases(AllCoins, LimMN, 8)
+LimCasesT == LimCases({"BTC"}, LimMN, 5) \cup LimCases({"BCH", "BTG", "XTN", "LTC", "DOGE"}, {<<15, 15>>, <<9, 12>>, <<20, 20>>}, 3)
 =============================================================================
